@@ -4,7 +4,8 @@ use crate::oracles;
 use crate::plangen::{SetupOpts, Weights, plan_strategy};
 use crate::props::common::{base_report, judge, run_plan};
 use crate::runner::{Args, CaseReport, Failure, Mode, RunPlan, Spec, Tier, drive};
-use crate::world::{NoObserver, Plan, Regime};
+use crate::world::{Apply, NoObserver, Op, Plan, Regime};
+use proptest::prelude::*;
 
 pub fn exec(plan: &Plan, mode: Mode) -> Result<CaseReport, Failure> {
     let mut obs = NoObserver;
@@ -75,7 +76,7 @@ pub fn main(args: &Args) -> i32 {
     let spec = Spec {
         id: "C11",
         level: "exploration",
-        rule: "C01/C02-style histories with every client on SQLite and restarts (drop MDK and storage, reopen the file) at arbitrary positions: between a worse and a better commit, with a pending commit, with queued proposals, between process_welcome and accept_welcome, after key-package creation. Three oracles: (1) every restart leaves the full API-visible fingerprint and the pending welcomes identical; (2) a passive non-admin member is mirrored by a twin opened on a copy of its database that receives the same events and never restarts - full fingerprints equal after every delivery; (3) the restarted members converge with the others and hold the winning branch's messages exactly as C01/C02 demand. Non-trivial = a restart followed later by a rollback, an own echo or a late commit at that client; distinct = distinct plans".into(),
+        rule: "C01/C02-style histories with every client on SQLite and restarts (drop MDK and storage, reopen the file) at arbitrary positions: between a worse and a better commit, with a pending commit, with queued proposals, between process_welcome and accept_welcome, after key-package creation. Three oracles: (1) every restart leaves the full API-visible fingerprint and the pending welcomes identical; (2) a passive non-admin member is mirrored by a twin opened on a copy of its database that receives the same events and never restarts - full fingerprints equal after every delivery; (3) the restarted members converge with the others and hold the winning branch's messages exactly as C01/C02 demand. A quarter of the histories start with a directed prelude: a race lost two or three commits deep, restart(s), then a fresh race on the new branch whose worse commit arrives first. Non-trivial = a restart followed later by a rollback, an own echo or a late commit at that client; distinct = distinct plans".into(),
         assumptions: vec![
             "clean shutdown only (crashes are C12)".into(),
             "wall-clock fields (processed_at, self-update completion time) are erased before comparing".into(),
@@ -88,7 +89,48 @@ pub fn main(args: &Args) -> i32 {
         args,
         spec,
         RunPlan { cases, workers: 16 },
-        || plan_strategy(&opts, &weights, len.clone()),
+        || {
+            // a quarter of the histories start with a directed prelude (the random tail follows):
+            // a commit race lost `depth` commits deep, the restart, then a fresh race on the new
+            // branch whose worse commit arrives first - the restarted client must still resolve it
+            (plan_strategy(&opts, &weights, len.clone()), 0u8..4, 2u8..4, any::<bool>())
+                .prop_map(|(mut p, roll, depth, restart_twice)| {
+                    if roll == 0 {
+                        p.setup.members = 3;
+                        p.setup.admin_mask = 1;
+                        p.setup.regime = Regime::Causal;
+                        p.setup.cfg.retention = p.setup.cfg.retention.max(depth as usize + 1);
+                        // selectors: acting clients are c0, c1 (c2 is the passive, twinned subject);
+                        // actors for deliveries / restarts are c0, c1, c2 and the spare
+                        let (a0, a1) = (0u16, 32768u16);
+                        let (m0, m1, m2) = (0u16, 16384u16, 32768u16);
+                        let mut pre = vec![];
+                        for _ in 0..depth {
+                            pre.push(Op::SelfUpdate { m: a0, ts: 3, apply: Apply::Echo });
+                            pre.push(Op::SelfEcho { m: m0 });
+                        }
+                        pre.push(Op::SelfUpdate { m: a1, ts: 1, apply: Apply::Echo });
+                        // in publication order: the losing branch first, then the better commit
+                        for _ in 0..=depth {
+                            pre.push(Op::Deliver { m: m2, sel: 0 });
+                        }
+                        pre.push(Op::Restart { m: m2 });
+                        pre.push(Op::SelfEcho { m: m1 });
+                        pre.push(Op::CatchUp { m: m0 });
+                        if restart_twice {
+                            pre.push(Op::Restart { m: m2 });
+                        }
+                        pre.push(Op::SelfUpdate { m: a1, ts: 4, apply: Apply::Echo });
+                        pre.push(Op::SelfUpdate { m: a0, ts: 1, apply: Apply::Echo });
+                        pre.push(Op::CatchUp { m: m2 });
+                        p.ops.truncate(25);
+                        pre.extend(p.ops.drain(..));
+                        p.ops = pre;
+                    }
+                    p
+                })
+                .boxed()
+        },
         exec,
     )
 }
